@@ -182,4 +182,17 @@
 #define LIVE_IDX(base, lo, hi) (IMPLIES (IN_IDX (0, base, lo, hi), LIVE (0)) && IMPLIES (IN_IDX (1, base, lo, hi), LIVE (1)) && IMPLIES (IN_IDX (2, base, lo, hi), LIVE (2)))
 #define FRAME_IDX(base, lo, hi) (IMPLIES (!IN_IDX (0, base, lo, hi), SAME_CELL (0)) && IMPLIES (!IN_IDX (1, base, lo, hi), SAME_CELL (1)) && IMPLIES (!IN_IDX (2, base, lo, hi), SAME_CELL (2)))
 
+
+/* ---- documented noexcept conditions (README synopsis), over the configuration facts (C18) ---------
+ * std::is_same<std::allocator<T>, Allocator> is false in every configuration (the allocator is vt::alloc).
+ * In every configuration the element's move constructor, move assignment and swap are nothrow together (FACT_MOVE_NOEXCEPT). */
+#ifdef CFG_N_ZERO
+#define N_IS_ZERO 1
+#else
+#define N_IS_ZERO 0
+#endif
+#define DOC_NOEXCEPT_MOVE_CTOR    (FACT_MOVE_NOEXCEPT || N_IS_ZERO)
+#define DOC_NOEXCEPT_MOVE_ASSIGN  ((FACT_POCMA || FACT_ALWAYS_EQUAL) && (FACT_MOVE_NOEXCEPT || N_IS_ZERO))
+#define DOC_NOEXCEPT_SWAP         ((FACT_POCS || FACT_ALWAYS_EQUAL) && (FACT_MOVE_NOEXCEPT || N_IS_ZERO))
+
 #endif
